@@ -175,14 +175,15 @@ func runC26(c *eng.Ctx) {
 	// ---------------------------------------------------------------- (3) ROUTE-passthrough
 	ar := c.NeedFunc("weed/s3api", "(*IdentityAccessManagement).authRequest")
 	type passType struct {
-		constName string
-		method    string
-		verifier  []string
-		formOnly  bool
+		constName  string
+		method     string
+		verifier   []string
+		formOnly   bool
+		bucketOnly bool // authRequest passes the type through only for bucket-level requests
 	}
 	known := map[string]passType{
-		"authTypeStreamingSigned": {"authTypeStreamingSigned", "PUT", []string{"s3api.IdentityAccessManagement).newSignV4ChunkedReader"}, false},
-		"authTypePostPolicy":      {"authTypePostPolicy", "POST", []string{"s3api.IdentityAccessManagement).doesPolicySignatureMatch"}, true},
+		"authTypeStreamingSigned": {"authTypeStreamingSigned", "PUT", []string{"s3api.IdentityAccessManagement).newSignV4ChunkedReader"}, false, false},
+		"authTypePostPolicy":      {"authTypePostPolicy", "POST", []string{"s3api.IdentityAccessManagement).doesPolicySignatureMatch"}, true, false},
 	}
 	var passing []passType
 	if ar != nil {
@@ -235,6 +236,27 @@ func runC26(c *eng.Ctx) {
 				}}); hit != nil {
 					name := authTypeName(tk)
 					if pt, isKnown := known[name]; isKnown {
+						// is this pass-through limited to requests that address a bucket (no object in the path)?
+						bucketLevel := eng.PassEdges(ar, func(cond ssa.Value) (bool, bool) {
+							bo2, isB := cond.(*ssa.BinOp)
+							if !isB || (bo2.Op != token.EQL && bo2.Op != token.NEQ) {
+								return false, false
+							}
+							sv, isS := eng.ConstString(bo2.Y)
+							if !isS || sv != "/" || !eng.MentionsCall(bo2.X, "s3api.getBucketAndObject") {
+								return false, false
+							}
+							ex, isEx := eng.Unwrap(bo2.X).(*ssa.Extract)
+							if !isEx || ex.Index != 1 {
+								return false, false
+							}
+							return true, bo2.Op == token.EQL
+						})
+						if len(bucketLevel) > 0 {
+							if h2, _ := eng.Search(eng.Loc{B: b.Succs[0], Idx: 0}, eng.Is(r), eng.SearchOpt{Cut: eng.MergeEdges(canDo, bucketLevel)}); h2 == nil {
+								pt.bucketOnly = true
+							}
+						}
 						passing = append(passing, pt)
 					} else {
 						c.Ob("ROUTE-passthrough", "authRequest lets "+name+" through", false, ret.Pos(), "authRequest answers ErrNone for auth type "+name+" without an identity and no verifier for that type is known to this check")
@@ -253,6 +275,10 @@ func runC26(c *eng.Ctx) {
 			}
 			verifies := eng.Reaches(r.handler, eng.CallTo(pt.verifier...), 2)
 			key := fmt.Sprintf("%s under %s", keys[r.order], pt.constName)
+			if pt.bucketOnly && r.path {
+				c.Ob("ROUTE-passthrough", key, true, r.pos, "not reachable with this auth type: authRequest passes it through only for requests that address a bucket, this route addresses an object")
+				continue
+			}
 			if shadowed {
 				c.Ob("ROUTE-passthrough", key, true, r.pos, "not reachable with this auth type: an earlier route matching every form-encoded "+pt.method+" verifies it")
 				continue
@@ -271,7 +297,7 @@ func runC26(c *eng.Ctx) {
 			}
 		}
 	}
-	c.Expect("ROUTE-passthrough", 8)
+	c.Expect("ROUTE-passthrough", 4)
 
 	// ---------------------------------------------------------------- (4) GUARD-auth
 	if auth := c.NeedFunc("weed/s3api", "(*IdentityAccessManagement).Auth"); auth != nil && len(auth.AnonFuncs) == 1 {
